@@ -225,6 +225,7 @@ func monitor(c hxlib.Case, outs []string) (vs []hxlib.Violation) {
 			Lines: c.Lines[lo : i+1], Output: tail(outs[lo:i+1], 6)})
 	}
 	kind := ""
+	dbThere := false // is there a database (a controller) the operations of the case can reach?
 	queries := map[string]mQuery{}
 	var subs []*mSub
 	var hooks []*mHook
@@ -284,6 +285,11 @@ func monitor(c hxlib.Case, outs []string) (vs []hxlib.Violation) {
 			}
 		case "db":
 			kind = f[1]
+			dbThere = f[1] != "regraw" // a fresh runtime registry is not a database yet
+		case "inject":
+			if o == "ok" {
+				dbThere = true
+			}
 		case "q":
 			queries[f[1]] = mQuery{prefix: unq(f[2]), cond: f[3:]}
 		case "sub":
@@ -417,6 +423,11 @@ func monitor(c hxlib.Case, outs []string) (vs []hxlib.Violation) {
 					break
 				}
 				f = append([]string{"push"}, f[2:]...)
+			}
+			if !dbThere {
+				// a runtime registry that has not been injected yet: there is no database the statement could talk about
+				// (no subscription or hook can exist, interface operations fail in getController, pushes go nowhere)
+				break
 			}
 			iface := "LI"
 			key := f[1]
